@@ -193,11 +193,11 @@ Proof.
 Qed.
 
 (* trimming the unchanged entries does not alter the result when no stale last entry exists *)
-Lemma bulk_update_all : forall e K t (us : list upd),
+Lemma trim_all : forall e K t (us : list upd),
   Forall (fun u => map fst (snd u) = K) us -> stale_free e t us = true ->
-  bulk_update e t us = apply_upds e us t.
+  apply_upds e (filter (changed e t) us) t = apply_upds e us t.
 Proof.
-  intros e K t us HK Hs. unfold bulk_update. rewrite !apply_upds_rows. apply map_ext_in. intros r Hr.
+  intros e K t us HK Hs. rewrite !apply_upds_rows. apply map_ext_in. intros r Hr.
   assert (HK' : Forall (fun u => map fst (snd u) = K) (filter (changed e t) us)).
   { rewrite Forall_forall in *. intros u Hu. apply filter_In in Hu. apply HK; tauto. }
   rewrite (fold_upd_row_last e K _ r HK'), (fold_upd_row_last e K _ r HK).
@@ -211,6 +211,63 @@ Proof.
         specialize (Hs u Hu). rewrite Cu, Hid, L, C in Hs. discriminate.
   - rewrite last_for_filter_none; [reflexivity|].
     intros u Hu Hid. exfalso. apply (last_for_none _ _ L u Hu Hid).
+Qed.
+
+(* entries with pairwise different row ids are never stale *)
+Lemma last_for_unique : forall (us : list upd) (u : upd),
+  NoDup (map fst us) -> In u us -> last_for (fst u) us = Some u.
+Proof.
+  induction us as [|x us IH]; intros u Hnd Hin; [destruct Hin|].
+  simpl in Hnd. inversion Hnd as [|? ? Hx Hnd']; subst. simpl.
+  destruct Hin as [->|Hin].
+  - destruct (last_for (fst u) us) as [l|] eqn:L.
+    + destruct (last_for_In _ _ _ L) as [Hl Hid]. exfalso. apply Hx. rewrite <- Hid. apply in_map; exact Hl.
+    + rewrite Z.eqb_refl. reflexivity.
+  - rewrite (IH u Hnd' Hin). reflexivity.
+Qed.
+
+Lemma stale_free_distinct : forall e t (us : list upd), NoDup (map fst us) -> stale_free e t us = true.
+Proof.
+  intros e t us Hnd. unfold stale_free. apply forallb_forall. intros u Hu.
+  rewrite (last_for_unique us u Hnd Hu). destruct (changed e t u); reflexivity.
+Qed.
+
+(* ---------- keeping the last occurrence of every row id ---------- *)
+Lemma keep_last_In : forall (us : list upd) u, In u (keep_last us) -> In u us.
+Proof.
+  induction us as [|x us IH]; intros u H; simpl in *; [exact H|].
+  destruct (memz (fst x) (map fst us)); [right; auto|]. destruct H as [<-|H]; [left; reflexivity|right; auto].
+Qed.
+
+Lemma keep_last_nodup : forall us : list upd, NoDup (map fst (keep_last us)).
+Proof.
+  induction us as [|x us IH]; simpl; [constructor|].
+  destruct (memz (fst x) (map fst us)) eqn:M; [exact IH|]. simpl. constructor; [|exact IH].
+  intros H. apply in_map_iff in H. destruct H as [u [E Hu]]. apply keep_last_In in Hu.
+  assert (memz (fst x) (map fst us) = true); [|congruence].
+  apply memz_In. rewrite <- E. apply in_map. exact Hu.
+Qed.
+
+Lemma last_for_keep_last : forall i (us : list upd), last_for i (keep_last us) = last_for i us.
+Proof.
+  intros i us; induction us as [|x us IH]; simpl; [reflexivity|].
+  destruct (memz (fst x) (map fst us)) eqn:M.
+  - rewrite IH. destruct (last_for i us) eqn:L; [reflexivity|].
+    destruct (Z.eqb_spec (fst x) i) as [E|_]; [|reflexivity].
+    exfalso. apply memz_In in M. apply in_map_iff in M. destruct M as [u [Eu Hu]].
+    apply (last_for_none _ _ L u Hu). congruence.
+  - simpl. rewrite IH. reflexivity.
+Qed.
+
+Lemma bulk_update_all : forall e K t (us : list upd),
+  Forall (fun u => map fst (snd u) = K) us -> bulk_update e t us = apply_upds e us t.
+Proof.
+  intros e K t us HK. unfold bulk_update.
+  assert (HK' : Forall (fun u => map fst (snd u) = K) (keep_last us)).
+  { rewrite Forall_forall in *. intros u Hu. apply HK. apply keep_last_In; exact Hu. }
+  rewrite (trim_all e K t _ HK' (stale_free_distinct e t _ (keep_last_nodup us))).
+  rewrite !apply_upds_rows. apply map_ext. intros r.
+  rewrite (fold_upd_row_last e K _ r HK'), (fold_upd_row_last e K _ r HK), last_for_keep_last. reflexivity.
 Qed.
 
 (* ---------- adding records ---------- *)
@@ -768,29 +825,24 @@ Qed.
 Lemma upd_after_add : forall e t o require col_values l nr,
   let rows := map (mk_row require col_values) l in
   (forall r : row, In r nr -> ~ In (fst r) (ids_of t)) ->
-  stale_free e t (ref_upds e t o rows) = true ->
   (if isnil (ref_upds e t o rows) then t ++ nr else bulk_update e (t ++ nr) (ref_upds e t o rows))
   = apply_upds e (ref_upds e t o rows) t ++ nr.
 Proof.
-  intros e t o require col_values l nr rows Hnr Hstale.
+  intros e t o require col_values l nr rows Hnr.
   assert (E : bulk_update e (t ++ nr) (ref_upds e t o rows) = apply_upds e (ref_upds e t o rows) t ++ nr).
   { rewrite (bulk_update_all e (map fst col_values)).
     - rewrite apply_upds_app. f_equal. apply apply_upds_untouched.
       intros u Hu Hin. unfold ids_of in Hin. apply in_map_iff in Hin. destruct Hin as [r [Er Hr]].
       apply (Hnr r Hr). rewrite Er. apply (ref_upds_ids_In e t o rows u Hu).
-    - apply ref_upds_keys.
-    - apply (stale_free_ext e t); [|exact Hstale].
-      intros u Hu. apply changed_app. intros r Hr Er. apply (Hnr r Hr). rewrite Er.
-      apply (ref_upds_ids_In e t o rows u Hu). }
+    - apply ref_upds_keys. }
   destruct (ref_upds e t o rows) eqn:U; [reflexivity|]. cbn [isnil]. exact E.
 Qed.
 
 Lemma core_eq : forall e t require col_values o len,
   o_on_many o <> OnBad ->
-  stale_free e t (ref_upds e t o (rows_of len require col_values)) = true ->
   upsert_core e t require col_values o len = ref_core e t require col_values o len.
 Proof.
-  intros e t require col_values o len Hbad Hstale.
+  intros e t require col_values o len Hbad.
   unfold upsert_core, ref_core. cbn zeta.
   rewrite (loop_spec e t o require col_values Hbad len 0%nat
              {| s_adds := []; s_new_idx := []; s_upds := []; s_rec_ids := repeat [] len; s_upd_ids := [] |}
@@ -818,8 +870,7 @@ Proof.
   rewrite (doc_add_fresh ids _ t Hpos Hnd Hfresh).
   subst rows. f_equal. f_equal.
   { apply (upd_after_add e t o require col_values (seq 0 len)).
-    - intros [i c] Hr. apply in_combine_l in Hr. apply Hfresh; exact Hr.
-    - exact Hstale. }
+    intros [i c] Hr. apply in_combine_l in Hr. apply Hfresh; exact Hr. }
   pose proof (fill_spec e t o (map (mk_row require col_values) (seq 0 len)) 0%nat [] ids eq_refl) as F. cbn [app] in F. rewrite F.
   unfold ret_of at 2. f_equal.
   - symmetry. apply resolve_add_ids. unfold ids. rewrite fill_length.
@@ -846,13 +897,12 @@ Proof.
 Qed.
 
 Lemma upsert_eq : forall e t require col_values o,
-  no_stale_update e t require col_values o = true ->
   upsert e t require col_values o = ref_upsert e t require col_values o.
 Proof.
-  intros e t require col_values o Hs. unfold ref_upsert.
+  intros e t require col_values o. unfold ref_upsert.
   destruct (arg_error require col_values o) as [x|] eqn:AE; [apply arg_error_upsert; exact AE|].
   unfold arg_error, empty_require_refused, duplicate_keys in AE.
-  unfold no_stale_update in Hs. unfold upsert. unfold common_length in *.
+  unfold upsert. unfold common_length in *.
   rewrite lens_match.
   assert (Hbad : o_on_many o <> OnBad).
   { intros E. unfold bad_on_many in AE. rewrite E in AE. discriminate AE. }
@@ -929,24 +979,12 @@ Proof.
   destruct (changed e t u); reflexivity.
 Qed.
 
-Lemma no_stale_single : forall e t rq cv o,
-  no_stale_update e t (single_kv rq) (single_kv cv) o = true.
-Proof.
-  intros e t rq cv o. unfold no_stale_update.
-  destruct (isnil rq && isnil cv) eqn:E.
-  - apply andb_true_iff in E. destruct E as [E1 E2]. destruct rq; [|discriminate]. destruct cv; [|discriminate]. reflexivity.
-  - rewrite (common_length_single rq cv E). apply (stale_free_one_row e t _ cv).
-    intros u Hu. cbn [rows_of seq map ref_upds flat_map] in Hu. rewrite app_nil_r in Hu. cbn [fst snd] in Hu.
-    destruct (ref_outcome e t o (row_at 0 (single_kv rq))); try (destruct Hu).
-    apply in_map_iff in Hu. destruct Hu as [x [<- _]]. apply row_at_single.
-Qed.
-
 Lemma single_eq : forall e t rq cv o,
   upsert_single e t rq cv o = ref_single e t rq cv o.
 Proof.
   intros e t rq cv o. unfold upsert_single, ref_single.
   destruct (isnil rq && isnil cv) eqn:E; [reflexivity|].
-  rewrite (upsert_eq e t _ _ o (no_stale_single e t rq cv o)).
+  rewrite (upsert_eq e t _ _ o).
   unfold ref_upsert. destruct (arg_error (single_kv rq) (single_kv cv) o); [reflexivity|].
   rewrite !isnil_single, E, (common_length_single rq cv E).
   destruct (negb (forallb (fun p => known e (fst p)) (single_kv rq))); [reflexivity|].
@@ -996,21 +1034,3 @@ Proof.
      intros H; apply upsert_core_err in H; contradiction).
 Qed.
 
-(* ---------- a simple sufficient condition for the first hypothesis ---------- *)
-Lemma last_for_unique : forall (us : list upd) (u : upd),
-  NoDup (map fst us) -> In u us -> last_for (fst u) us = Some u.
-Proof.
-  induction us as [|x us IH]; intros u Hnd Hin; [destruct Hin|].
-  simpl in Hnd. inversion Hnd as [|? ? Hx Hnd']; subst. simpl.
-  destruct Hin as [->|Hin].
-  - destruct (last_for (fst u) us) as [l|] eqn:L.
-    + destruct (last_for_In _ _ _ L) as [Hl Hid]. exfalso. apply Hx. rewrite <- Hid. apply in_map; exact Hl.
-    + rewrite Z.eqb_refl. reflexivity.
-  - rewrite (IH u Hnd' Hin). reflexivity.
-Qed.
-
-Lemma stale_free_distinct : forall e t (us : list upd), NoDup (map fst us) -> stale_free e t us = true.
-Proof.
-  intros e t us Hnd. unfold stale_free. apply forallb_forall. intros u Hu.
-  rewrite (last_for_unique us u Hnd Hu). destruct (changed e t u); reflexivity.
-Qed.
